@@ -153,3 +153,24 @@ Proof.
   intros K V st iv n w _ Hst Hiv. unfold with_imputed.
   rewrite (map_nth_error _ _ _ (nth_error_combine _ _ _ _ _ _ _ Hst Hiv)). reflexivity.
 Qed.
+
+(* imputation never changes the number of stored points *)
+Lemma impute_length : forall (V : Type) (st iv : list (option V)),
+  length iv = length st -> length (with_imputed V st (Some iv)) = length st.
+Proof.
+  intros V st iv Hlen. unfold with_imputed.
+  rewrite map_length, combine_length, Hlen. apply Nat.min_id.
+Qed.
+
+(* a store with no missing value is returned unchanged, whatever the imputed values are *)
+Lemma impute_complete_unchanged : forall (V : Type) (st iv : list (option V)),
+  length iv = length st -> (forall x, In x st -> x <> None) ->
+  with_imputed V st (Some iv) = st.
+Proof.
+  intros V st. unfold with_imputed.
+  induction st as [|x st IH]; intros iv Hlen Hall; [destruct iv; reflexivity|].
+  destruct iv as [|y iv]; [discriminate Hlen|].
+  cbn [combine map fst snd]. f_equal.
+  - destruct x as [v|]; [reflexivity|]. exfalso. apply (Hall None); [left; reflexivity | reflexivity].
+  - apply IH; [injection Hlen; auto | intros z Hz; apply Hall; right; exact Hz].
+Qed.
